@@ -60,6 +60,8 @@ func canonOpts(e map[string]tla.Value) []string {
 		out = append(out, k)
 	case "flatreport", "walk-nopaths", "mkdir-nopaths", "verify-nopaths":
 		out = append(out, "json")
+	case "cancelled":
+		out = append(out, "mcancel")
 	}
 	if k == "report" || k == "flatreport" {
 		out = append(out, "dry")
@@ -145,6 +147,10 @@ func optResultOf(rp wproto.Rep) optResult {
 	return optResult{rp.Class, rp.Out, rp.Err, rp.Walk, rp.Entries}
 }
 
+// a call whose context was cancelled beforehand: only the returned error is determined (how far the
+// pipeline got before it noticed is not)
+func (a optResult) cancelledOnly() optResult { return optResult{Class: a.Class, Err: a.Err} }
+
 func (a optResult) same(b optResult) bool {
 	return a.Class == b.Class && a.Out == b.Out && a.Err == b.Err && sameStrs(a.Walk, b.Walk) && sameStrs(a.Entries, b.Entries)
 }
@@ -203,6 +209,10 @@ func checkOptions(r *evid.Run, layer string, docs []int, want func(s *optState) 
 						continue
 					}
 					got := call(s.Op, s.Fam, s.Opts, di)
+					cancelled := tla.S(s.Rule["k"]) == "cancelled"
+					if cancelled {
+						got = got.cancelledOnly()
+					}
 					desc := fmt.Sprintf("%s (%s) of %s with options %v", s.Op, s.Fam, optDocs[di].name, s.Opts)
 					rec := map[string]any{"options": s.Opts, "op": s.Op, "family": s.Fam, "document": optDocs[di].doc, "got": got}
 					if got.Class == "panic" || got.Class == "hang" {
@@ -213,6 +223,9 @@ func checkOptions(r *evid.Run, layer string, docs []int, want func(s *optState) 
 					case "families":
 						if s.Fam == "root" {
 							md := call(s.Op, "md", s.Opts, di)
+							if cancelled {
+								md = md.cancelledOnly()
+							}
 							if !got.same(md) {
 								rec["from_markdown"] = md
 								r.Mismatch(fmt.Sprintf("options:%s:from-root-differs-from-markdown:%s", s.Op, tla.S(s.Rule["k"])),
@@ -221,6 +234,9 @@ func checkOptions(r *evid.Run, layer string, docs []int, want func(s *optState) 
 						}
 					case "rule":
 						ref := call(s.Op, "md", canonOpts(s.Rule), di)
+						if cancelled {
+							ref = ref.cancelledOnly()
+						}
 						if !got.same(ref) {
 							rec["canonical_options"], rec["canonical_result"] = canonOpts(s.Rule), ref
 							r.Mismatch(fmt.Sprintf("options:%s/%s:result-changed-by-an-option-it-has-no-use-for:%s", s.Op, s.Fam, tla.S(s.Rule["k"])),
@@ -229,6 +245,9 @@ func checkOptions(r *evid.Run, layer string, docs []int, want func(s *optState) 
 					}
 					// Layer M
 					ref := call(s.Op, "md", canonOpts(s.Code), di)
+					if tla.S(s.Code["k"]) == "cancelled" {
+						ref = ref.cancelledOnly()
+					}
 					if !got.same(ref) {
 						key := s.Op + "/" + s.Fam + "/" + tla.S(s.Code["k"])
 						mu.Lock()
